@@ -16,6 +16,8 @@ Arrs1 == { Arr(<<>>) } \cup { Arr(<<p>>) : p \in SmallP }
           \cup { Arr(<<p, q>>) : p \in {IntV(0), IntV(1), Str(<<97>>)}, q \in {IntV(0), IntV(1), ErrElem, Null} }
           \cup { Arr(<<IntV(1), IntV(1), ErrElem>>), Arr(<<IntV(1), IntV(2), ErrElem>>), Arr(<<ErrElem>>),
                  Arr(<<IntV(0), IntV(1), IntV(2)>>) }
+          \* an unordered / failing item strictly inside, equal prefixes, deciding item after it
+          \cup { Arr(<<IntV(0), m, l>>) : m \in {Null, Bool(TRUE), ErrElem, Obj(<<>>), Func}, l \in {IntV(1), IntV(2)} }
 Arrs2 == { Arr(<<Arr(<<>>)>>), Arr(<<Arr(<<IntV(1)>>)>>), Arr(<<Arr(<<IntV(1)>>), ErrElem>>),
            Arr(<<Arr(<<IntV(2)>>), ErrElem>>), Arr(<<Arr(<<IntV(1), IntV(0)>>)>>) }
 
